@@ -117,9 +117,11 @@ func KindSchema(kind string) (M, map[string]M) {
 	case "oneOf-plain-shared":
 		// no discriminator; the alternatives share property names, each has one
 		// required property of its own
-		a := Obj([]string{"a"}, M{"a": Prim("string", ""), "name": Prim("string", ""), "age": Prim("integer", "int32")})
-		b := Obj([]string{"b"}, M{"b": Prim("boolean", ""), "name": Prim("string", ""), "age": Prim("integer", "int32")})
-		c := Obj([]string{"c", "name"}, M{"c": Prim("integer", "int64"), "name": Prim("string", "")})
+		// (the own property sorts after the shared ones: decoders go through the
+		// properties in name order)
+		a := Obj([]string{"za"}, M{"za": Prim("string", ""), "name": Prim("string", ""), "age": Prim("integer", "int32")})
+		b := Obj([]string{"zb"}, M{"zb": Prim("boolean", ""), "name": Prim("string", ""), "age": Prim("integer", "int32")})
+		c := Obj([]string{"zc", "name"}, M{"zc": Prim("integer", "int64"), "name": Prim("string", "")})
 		aux["AuxA"], aux["AuxB"], aux["AuxC"] = a, b, c
 		return M{"oneOf": L{Ref("schemas", "AuxA"), Ref("schemas", "AuxB"), Ref("schemas", "AuxC")}}, aux
 	case "oneOf-disc-namemap":
